@@ -8,6 +8,26 @@ from . import c06
 
 IO = "amaranth/lib/io.py"
 
+
+def _elementwise_not(e, seq):
+    """is `e` the tuple of the negations of the elements of `seq` (text)?  tuple(not v for v in S), tuple(map(operator.not_, S)),
+    tuple([not v for v in S])"""
+    if not (isinstance(e, ast.Call) and dotted(e.func) == "tuple" and len(e.args) == 1):
+        return False
+    a = e.args[0]
+    if isinstance(a, (ast.GeneratorExp, ast.ListComp)) and len(a.generators) == 1 and not a.generators[0].ifs and \
+            unparse(a.generators[0].iter) == seq and isinstance(a.generators[0].target, ast.Name):
+        v = a.generators[0].target.id
+        return isinstance(a.elt, ast.UnaryOp) and isinstance(a.elt.op, ast.Not) and unparse(a.elt.operand) == v
+    if isinstance(a, ast.Call) and dotted(a.func) == "map" and len(a.args) == 2 and unparse(a.args[1]) == seq:
+        f = a.args[0]
+        if unparse(f) in ("operator.not_", "operator.__not__"):
+            return True
+        if isinstance(f, ast.Lambda) and len(f.args.args) == 1 and isinstance(f.body, ast.UnaryOp) and isinstance(f.body.op, ast.Not) \
+                and unparse(f.body.operand) == f.args.args[0].arg:
+            return True
+    return False
+
 EXPLANATION = (
     "Static (ast-only) decision of structural necessary conditions of C18 on lib/io.py: (a) port algebra field "
     "consistency — for SingleEndedPort, DifferentialPort and SimulationPort, __getitem__ applies the same index to "
@@ -49,7 +69,9 @@ def r18a(model, ctx):
         call = ret("__invert__")
         args = [unparse(a) for a in call.args]
         kw = {k.arg: unparse(k.value) for k in call.keywords}
-        ok = args == [f"self.{f}" for f in fields] and kw.get("invert") == "tuple((not inv for inv in self._invert))" and kw.get("direction") == "self._direction"
+        kwn = {k.arg: k.value for k in call.keywords}
+        ok = args == [f"self.{f}" for f in fields] and "invert" in kwn and _elementwise_not(kwn["invert"], "self._invert") and \
+            kw.get("direction") == "self._direction"
         ctx.check(ok, R, f"{cls}.__invert__", "every invert bit negated; wires and direction unchanged",
                   f"{cls}.__invert__ must keep {fields} and the direction and negate every bit of _invert; found {unparse(call)}",
                   f"{IO}:{ms['__invert__'].lineno}")
@@ -77,8 +99,10 @@ def r18a(model, ctx):
     ctx.check(ok, R, "SimulationPort.__getitem__", "i, o, oe and invert indexed with the same key; direction kept",
               f"SimulationPort.__getitem__ must index _i, _o, _oe and _invert with the same key; found {a}", f"{IO}:{ms['__getitem__'].lineno}")
     a = assigns(ms["__invert__"])
-    ok = a == {"result._i": "self._i", "result._o": "self._o", "result._oe": "self._oe",
-               "result._invert": "tuple((not invert for invert in self._invert))", "result._direction": "self._direction"}
+    inv_node = [st.value for st in ast.walk(ms["__invert__"]) if isinstance(st, ast.Assign) and unparse(st.targets[0]) == "result._invert"]
+    ok = {k: v for k, v in a.items() if k != "result._invert"} == {"result._i": "self._i", "result._o": "self._o", "result._oe": "self._oe",
+                                                                    "result._direction": "self._direction"} and \
+        len(inv_node) == 1 and _elementwise_not(inv_node[0], "self._invert")
     ctx.check(ok, R, "SimulationPort.__invert__", "only invert changes", f"SimulationPort.__invert__ must only negate _invert; found {a}",
               f"{IO}:{ms['__invert__'].lineno}")
     a = assigns(ms["__add__"])
@@ -90,20 +114,52 @@ def r18a(model, ctx):
     ctx.check(ok, R, "SimulationPort.__add__", "i/o/oe/invert concatenated as (self, other); direction narrowed",
               f"SimulationPort.__add__ must concatenate every per-bit field as (self, other) and narrow the direction; found {a}",
               f"{IO}:{ms['__add__'].lineno}")
+    # Direction.__and__ is a function on a three-element enumeration: decided by specialising it for each of the nine
+    # (self, other) pairs (identity/equality tests between members folded) and reading off the result
     f = model.func(f"{IO}::Direction.__and__")
-    paths = [p for p in run_paths(f.body) if p.how in ("return", "raise")]
-    got = {(tuple((unparse(c), pol) for c, pol in p.conds if pol)[-1:], p.how, unparse(p.ret) if p.how == "return" else "raise") for p in paths}
-    want = {((("not isinstance(other, Direction)", True),), "return", "NotImplemented"), ((("self == other", True),), "return", "self"),
-            ((("self is Direction.Bidir", True),), "return", "other"), ((("other is Direction.Bidir", True),), "return", "self"),
-            ((), "raise", "raise")}
+    MEMBERS = ("Input", "Output", "Bidir")
+
+    def member(node, a, b):
+        t = unparse(node)
+        if t == "self":
+            return a
+        if t == "other":
+            return b
+        if t.startswith("Direction.") and t.split(".", 1)[1] in MEMBERS:
+            return t.split(".", 1)[1]
+        return None
+    got, want = {}, {}
+    for a in MEMBERS:
+        for b in MEMBERS:
+            def fold(node, a=a, b=b):
+                if isinstance(node, ast.Compare) and len(node.ops) == 1 and isinstance(node.ops[0], (ast.Is, ast.IsNot, ast.Eq, ast.NotEq)):
+                    l, r = member(node.left, a, b), member(node.comparators[0], a, b)
+                    if l is not None and r is not None:
+                        return ast.Constant(value=(l == r) == isinstance(node.ops[0], (ast.Is, ast.Eq)))
+                if isinstance(node, ast.Call) and dotted(node.func) == "isinstance" and unparse(node.args[0]) == "other":
+                    return ast.Constant(value=True)
+                return None
+            ps = [p for p in run_paths(f.body, fold=fold) if not p.conds_open()]
+            need(len(ps) == 1, f"Direction.__and__: cannot decide the result for ({a}, {b})")
+            p = ps[0]
+            got[(a, b)] = "raise" if p.how == "raise" else (member(p.ret, a, b) if p.ret is not None else None)
+            want[(a, b)] = a if a == b else (b if a == "Bidir" else (a if b == "Bidir" else "raise"))
+    npaths = [p for p in run_paths(f.body) if p.how == "return" and p.ret is not None and unparse(p.ret) == "NotImplemented"]
+    got["non-Direction"] = "NotImplemented" if npaths else None
+    want["non-Direction"] = "NotImplemented"
     ctx.check(got == want, R, "Direction.__and__", "x&x=x, Bidir&x=x, x&Bidir=x, Input&Output raises",
-              f"Direction.__and__ must narrow (same -> same, Bidir yields the other) and raise for Input & Output; found {sorted(got ^ want)}",
+              f"Direction.__and__ must narrow (same -> same, Bidir yields the other) and raise for Input & Output; found "
+              f"{sorted((k, v) for k, v in got.items() if want.get(k) != v)}",
               f"{IO}:{f.lineno}")
     # constructors normalise invert to one flag per bit
     for cls in ("SingleEndedPort", "DifferentialPort"):
-        fi = model.func(f"{IO}::{cls}.__init__")
-        t = unparse(fi)
-        ok = "self._invert = (invert,) * len(" in t and "self._invert = tuple(invert)" in t and "len(self._invert) != len(" in t
+        # on the expanded view (a shared module-level helper may do the normalisation): a bool is replicated to the port
+        # width, a sequence is stored as a tuple whose length is compared with the same width (mismatch raises)
+        fi = model.func_view(f"{IO}::{cls}.__init__", depth=3)
+        wid = {"SingleEndedPort": "len(self._io)", "DifferentialPort": "len(self._p)"}[cls]
+        t = unparse(fi).replace("port._invert", "self._invert")
+        ok = f"self._invert = (invert,) * {wid}" in t and "self._invert = tuple(invert)" in t and \
+            f"if len(self._invert) != {wid}:" in t and "raise ValueError" in t
         ctx.check(ok, R, f"{cls}.__init__:invert", "one inversion flag per bit (bool replicated, sequence length checked)",
                   f"{cls} must normalise invert to one flag per bit and check its length", f"{IO}:{fi.lineno}")
 
@@ -170,7 +226,7 @@ def r18b(model, ctx):
 
 def r18c(model, ctx):
     R = "R-18c"
-    fn = model.func_expanded(f"{IO}::FFBuffer.elaborate", depth=3)
+    fn = model.func_view(f"{IO}::FFBuffer.elaborate", depth=3)
     em = ElabModel(fn)
     def one(t):
         h = [a for a in em.assigns if a.target_text == t]
